@@ -144,3 +144,110 @@ Theorem C09_generated_worker_adds_its_own_contribution {F : Type} `{Num F} (b : 
 Proof. intros X'. unfold GenRidge.partial_backward, GenRidge.accumulate. subst X'. destruct (GenRidge.prepare_inputs X Y b) eqn:E.
   unfold GenRidge.prepare_inputs in E. injection E as <- <-. cbn [fst]. destruct lock; reflexivity. Qed.
 Print Assumptions C09_generated_worker_adds_its_own_contribution.
+
+(* ================================================================================================================
+   The R-vs-Q instance gap, closed by proof (base/NumHom.v, proofs/QR_bridge_C09.v).
+   C09_buffers_depend_on_rows_only is about model/BatchAcc.v at F := R and the schedule theorems hold for any monoid of
+   contributions; the correspondence run (run/RunC09.v) evaluates BatchAcc at F := Q and replays the observed schedule through
+   model/Conc.v with matrices over Q.  [Q2R] is a homomorphism of the [Num] class, so every sum of BatchAcc and both buffers
+   commute with the entry-wise embedding of the rows ([qbatches2r]: calls x sequences x rows, each row (x, y) embedded);
+   Conc.run is preserved, for ANY schedule, by any map of contributions that commutes with the addition (lock and program
+   counters included: [epc]), so the replay at Q embeds onto the replay at R; sort_and_unpack is structural.
+   [sched_run use_lock bias din dout tasks sched] is literally the Conc.run term of chk_sched.  No shape hypothesis, no side condition.
+   NOT bridged: chk_solution(s) compare with LA.qsolve (Gauss-Jordan written over Q only, the LAPACK stand-in); only the system
+   and the right-hand side handed to it are embedded (C09_Qsolver_inputs_embed). *)
+From RV Require Import base.NumHom proofs.QR_bridge_C09.
+
+Theorem C09_Qbatchacc_embed :
+  (forall (bias : bool) (i j w : nat) (batches : list (list (list (list Q * list Q)))) (a0 : Q),
+     Q2R (batches_sum (row_xx bias i j) w batches a0) = batches_sum (row_xx bias i j) w (qbatches2r batches) (Q2R a0) /\
+     Q2R (batches_sum (row_yx bias i j) w batches a0) = batches_sum (row_yx bias i j) w (qbatches2r batches) (Q2R a0)) /\
+  (forall (bias : bool) (din w : nat) (batches : list (list (list (list Q * list Q)))),
+     qm2r (XXT_of bias din w batches) = XXT_of bias din w (qbatches2r batches)) /\
+  (forall (bias : bool) (din dout w : nat) (batches : list (list (list (list Q * list Q)))),
+     qm2r (YXT_of bias din dout w batches) = YXT_of bias din dout w (qbatches2r batches)).
+Proof. exact Qbatchacc_embed. Qed.
+
+(* the replayed schedule: any schedule, lock or no lock; buffers, lock, program counters and termination flags *)
+Theorem C09_Qsched_embed (use_lock bias : bool) (din dout : nat) (tasks : list (list (list Q * list Q))) (sched : list nat) :
+  let sQ := sched_run use_lock bias din dout tasks sched in
+  let sR := sched_run use_lock bias din dout (qseqs2r tasks) sched in
+  XXT sR = qm2r (XXT sQ) /\ YXT sR = qm2r (YXT sQ) /\ lock sR = lock sQ /\
+  (forall w, pcs sR w = epc qm2r (pcs sQ w)) /\ (forall n, all_done n sR = all_done n sQ).
+Proof. exact (Qsched_embed use_lock bias din dout tasks sched). Qed.
+
+(* what the rational-only solver of the runner is handed *)
+Theorem C09_Qsolver_inputs_embed (bias : bool) (din dout w : nat) (batches : list (list (list (list Q * list Q)))) (ridge : Q) :
+  let n := if bias then S din else din in
+  qm2r (madd (XXT_of bias din w batches) (mscale ridge (eye n)))
+    = madd (XXT_of bias din w (qbatches2r batches)) (mscale (Q2R ridge) (eye n)) /\
+  qm2r (transpose (YXT_of bias din dout w batches) n) = transpose (YXT_of bias din dout w (qbatches2r batches)) n.
+Proof. exact (Qsolver_inputs_embed bias din dout w batches ridge). Qed.
+
+(* non-vacuity: bias on, 2 inputs, 1 output, warm-up 1, two partial_fit calls (the second with two sequences, one of them
+   entirely inside the warm-up), evaluated at R *)
+Example C09_Qbatchacc_example :
+  XXT_of true 2 1 (qbatches2r c09_ex) = qm2r [[(3#1)%Q; (-1#4)%Q; (13#8)%Q]; [(-1#4)%Q; (53#16)%Q; (-3#16)%Q]; [(13#8)%Q; (-3#16)%Q; (273#64)%Q]] /\
+  YXT_of true 2 1 1 (qbatches2r c09_ex) = qm2r [[(1#2)%Q; (19#16)%Q; (21#16)%Q]].
+Proof. exact Qbatchacc_example. Qed.
+
+Print Assumptions C09_Qbatchacc_embed.
+Print Assumptions C09_Qsched_embed.
+Print Assumptions C09_Qsolver_inputs_embed.
+
+(* ---- the verdict of the correspondence runner, read at R ----
+   [rclose m o] is |m - o| <= 1e-9 * max(1,|m|) on reals; [mrclose] / [lmrclose]: entry-wise on 2 / 3 levels, same shape. *)
+From RV Require Import run.RunC09.
+
+Theorem C09_chk_buffers_are_about_R_model :
+  (forall bias din dout w batches obsXXT obsYXT, chk_buffers bias din dout w batches obsXXT obsYXT = true ->
+     mrclose (XXT_of bias din w (qbatches2r batches)) (qm2r obsXXT) /\
+     mrclose (YXT_of bias din dout w (qbatches2r batches)) (qm2r obsYXT)) /\
+  (forall use_lock bias din dout tasks sched obsXXT obsYXT, chk_sched use_lock bias din dout tasks sched obsXXT obsYXT = true ->
+     let sR := sched_run use_lock bias din dout (qseqs2r tasks) sched in
+     forallb (fun w => w <? length tasks) sched = true /\ all_done (length tasks) sR = true /\
+     mrclose (XXT sR) (qm2r obsXXT) /\ mrclose (YXT sR) (qm2r obsYXT)) /\
+  (forall arrived obs, chk_order arrived obs = true ->
+     lmrclose (sort_and_unpack (map (esnd qm2r) arrived)) (map qm2r obs)).
+Proof. exact chk_buffers_are_about_R_model. Qed.
+
+(* non-vacuity: scenarios on which the runner answers true (the buffers of the example; two tasks under the lock, interleaved
+   schedule with a blocked step; two results arriving out of order) *)
+Example C09_chk_buffers_example :
+  chk_buffers true 2 1 1 c09_ex [[(3#1)%Q; (-1#4)%Q; (13#8)%Q]; [(-1#4)%Q; (53#16)%Q; (-3#16)%Q]; [(13#8)%Q; (-3#16)%Q; (273#64)%Q]]
+              [[(1#2)%Q; (19#16)%Q; (21#16)%Q]] = true /\
+  chk_sched true false 1 1 [[([(2#1)%Q], [(1#1)%Q])]; [([(1#2)%Q], [(4#1)%Q])]] [0; 1; 0; 0; 0; 0; 0; 1; 1; 1; 1; 1; 1]
+            [[(17#4)%Q]] [[(4#1)%Q]] = true /\
+  chk_order [(1, [[(2#1)%Q]]); (0, [[(1#1)%Q]])] [[[(1#1)%Q]]; [[(2#1)%Q]]] = true.
+Proof. vm_compute. repeat split; reflexivity. Qed.
+
+Print Assumptions C09_chk_buffers_are_about_R_model.
+
+(* ---- chk_solution: PARTIAL (the full reading is kept as a Definition, not proved) ----
+   The runner solves the model's regularised system with LA.qsolve, a Gauss-Jordan elimination written over Q only (stand-in
+   for LAPACK).  Proved: its inputs embed onto the R-model's system [sysR] / right-hand side [rhsR], and a verdict [true] says
+   that its exact rational output, embedded, is within tolerance of the observed Wout / bias ([weights_close]).
+   Not proved: that this output solves the embedded system over R (soundness of the elimination). *)
+Theorem C09_chk_solution_partial (bias : bool) (din dout w : nat) (batches : list (list (list (list Q * list Q)))) (ridge : Q)
+    (obsW obsB : list (list Q)) :
+  chk_solution bias din dout w batches ridge obsW obsB = true ->
+  exists Wq : list (list Q),
+    qsolve (sysQ bias din w batches ridge) (rhsQ bias din dout w batches) = Some Wq /\
+    qm2r (sysQ bias din w batches ridge) = sysR bias din w (qbatches2r batches) (Q2R ridge) /\
+    qm2r (rhsQ bias din dout w batches) = rhsR bias din dout w (qbatches2r batches) /\
+    weights_close bias (qm2r Wq) obsW obsB.
+Proof. exact (chk_solution_partial bias din dout w batches ridge obsW obsB). Qed.
+
+Definition C09_chk_solution_full_statement : Prop :=
+  forall (bias : bool) (din dout w : nat) (batches : list (list (list (list Q * list Q)))) (ridge : Q) (obsW obsB : list (list Q)),
+    chk_solution bias din dout w batches ridge obsW obsB = true ->
+    exists WR : list (list R),
+      mm (sysR bias din w (qbatches2r batches) (Q2R ridge)) WR dout = rhsR bias din dout w (qbatches2r batches) /\
+      weights_close bias WR obsW obsB.
+
+(* non-vacuity: one input, no bias, rows (2 -> 1), (1/2 -> 4): XXT = 17/4, YXT = 4, ridge 3/4: W = 4/5 *)
+Example C09_chk_solution_example :
+  chk_solution false 1 1 0 [[[([(2#1)%Q], [(1#1)%Q]); ([(1#2)%Q], [(4#1)%Q])]]] (3#4)%Q [[(4#5)%Q]] [] = true.
+Proof. vm_compute. reflexivity. Qed.
+
+Print Assumptions C09_chk_solution_partial.
